@@ -26,9 +26,9 @@ CHECKS["C09"] = dict(
 
 CHECKS["C02"] = dict(
     engine="E1", category="model_checking", design="4/C02",
-    technique="explicit-state exploration (fork-checkpointed DFS) of entitlement-change histories on the real code, task-by-task stepping with an invariant after every repository synchronisation, convergence and idempotence oracles after a bounded number of sync rounds",
+    technique="explicit-state exploration (fork-checkpointed DFS) of entitlement-change histories on the real code, an invariant after every repository synchronisation, convergence and idempotence oracles after a bounded number of sync rounds",
     text="Every sequence (up to the completed depth) of entitlement changes at two levels (grow, partial overlap, disjoint, regain), suspend/unsuspend, class-name mapping world, key rolls (thorough) is executed; after each repository sync of a CA its published child certificates must lie within the certificate it holds and every active child's certificate must have been replaced (not dropped); after two top-down sync rounds every child must hold exactly entitlement ∩ issuer with no open request, and a further round must add no command and change no published byte.",
-    note=E1_NOTE)
+    note=E1_NOTE + " One deterministic scenario (issuer shrinks while a child has not yet picked up a changed entitlement) is run besides the exploration; what it shows is a recorded known finding.")
 CHECKS["C03"] = dict(
     engine="E1", category="model_checking", design="4/C03",
     technique="explicit-state exploration (fork-checkpointed DFS) with a path-carried history monitor of every (issuer key, serial) ever accepted by the RP walk; CRL membership checked on every later state",
@@ -36,10 +36,10 @@ CHECKS["C03"] = dict(
     note=E1_NOTE)
 
 CHECKS["C04"] = dict(
-    engine="E1", category="model_checking", design="4/C04",
-    technique="explicit-state exploration (fork-checkpointed DFS) of key-roll steps interleaved with other operations on the real code; single-signer / RP-safety invariants in every state and a completion oracle run on a forked copy of every state",
+    engine="E1+E2", category="model_checking", design="4/C04",
+    technique="explicit-state exploration (fork-checkpointed DFS) of key-roll steps interleaved with other operations on the real code; single-signer / RP-safety invariants in every state and a completion oracle run on a forked copy of every state; plus preemption-bounded exploration of thread schedules (engine E2) of the activation request against a running parent synchronisation",
     text="Every interleaving (up to the completed depth) of roll initiate/activate, task steps and pumps with ROA/ASPA/BGPsec changes, entitlement changes at both levels, child requests, a second roll and restarts, for a CA under a normal parent, for a CA directly under the TA (proxy/signer exchange), with raw task-by-task stepping (RollPending/RollNew/RollOld all visited) and (thorough) two resource classes; in every state at most one key per class publishes products, nothing invalid or extra is published, nothing panics; from every state the continuation settle-activate-settle (x2) ends with one active key per class, no open request and the full C01 oracle holding.",
-    note=E1_NOTE + " Thread schedules are C18's subject, not explored here.")
+    note=E1_NOTE + " Thread schedules: the activation request against a parent synchronisation whose exchanges are separate CA commands (coverage.interleavings: no product lost right afterwards, class not dropped, roll completes); other thread combinations are C18's subject.")
 CHECKS["C06"] = dict(
     engine="E1", category="model_checking", design="4/C06",
     technique="explicit-state exploration (fork-checkpointed DFS) with a differential oracle at every state: live aggregates vs fresh stores on the same storage (snapshot + later commands) vs a restarted instance on a forked copy with all snapshots deleted (replay from command 0)",
@@ -115,7 +115,7 @@ CHECKS["C07"] = dict(
 CHECKS["C18"] = dict(
     engine="E2", category="model_checking", design="4/C18",
     technique="stateless exploration of thread interleavings of the real runtime under a controlled scheduler (engine E2, scheduling points at the lock hand-offs reported through hook H2, preemption-bounded depth-first search, every schedule re-executed from the same initial state in its own process): operation threads plus a thread running the daemon's scheduler loop body, compared with all serial orders of the same operations",
-    text="Variants: two changes on one CA (ROA, ASPA); parent-side entitlement change with the child's synchronisation; changes on a CA and on its parent; a ROA change with an API-requested repository synchronisation; a ROA change with an RRDP update - each together with the scheduler thread processing the tasks these produce; disk back-end (memory back-end for parent-child, thorough also same-ca). For every schedule with at most 1 (quick) / 2 (thorough) preemptions: all threads complete (no deadlock, detected as 'nobody can be resumed and nobody progresses'), no call fails (none fails in any serial order), the scheduler reports nothing fatal, and after background work has caught up (including one hour of retries) the observable state equals that of a serial order and the tree is relying-party valid.",
+    text="Variants: two changes on one CA (ROA, ASPA); parent-side entitlement change with the child's synchronisation; changes on a CA and on its parent; a ROA change with an API-requested repository synchronisation; a ROA change with an RRDP update; a ROA change with a forced re-publication of all CAs - each together with the scheduler thread processing the tasks these produce; disk back-end (memory back-end for parent-child, thorough also same-ca). For every schedule with at most 1 (quick) / 2 (thorough) preemptions: all threads complete (no deadlock, detected as 'nobody can be resumed and nobody progresses'), no call fails (none fails in any serial order), the scheduler reports nothing fatal, and after background work has caught up (including one hour of retries) the observable state equals that of a serial order and the tree is relying-party valid.",
     note="Scheduling points are reported lock hand-offs only; unreported std locks are resolved by a 400 ms watchdog, which can make a prefix not exactly replayable (counted in coverage, judged but not expanded). One call per operation thread. Replay: kcheck C18 --replay <file>.")
 
 CHECKS["C10"] = dict(
